@@ -7,9 +7,14 @@
 //
 // Oracle decisions (all within the property statement, see DESIGN.md §5 C18, §8a-5):
 //
-//   - write side: a transmitted UDP checksum of 0 means "no checksum" (RFC 768)
-//     and verifies; such frames are counted separately (split by whether the
-//     RFC 768 computed value was 0, i.e. the sender should have sent ffff).
+//   - write side: a transmitted UDP checksum of 0 is accepted only where the
+//     RFC 768 computed checksum (complement of the one's-complement sum over
+//     pseudo-header + UDP header + payload) is itself 0 — the all-ones/zero
+//     ambiguity, leniency 8a-5 (RFC 768 wants ffff there; 0000 verifies
+//     arithmetically and every receiver accepts it). Such frames are counted in
+//     the evidence. A transmitted 0 with a non-zero computed checksum means the
+//     checksum was omitted: violation (clause udp-checksum-omitted). Every
+//     non-zero transmitted checksum must verify.
 //     The return value n of WriteTo is only required to come with a nil error
 //     (the statement does not speak about n; observed values are recorded).
 //   - read side, "well-formed IPv4/UDP": >= 20 bytes, version 4, IHL >= 5, header
@@ -335,9 +340,14 @@ func checkWrite(c *fw.Ctx, scope string, order int64, sIP net.IP, sPort int, dIP
 	case ipref.UDPNoChecksum:
 		wc.zeroCk.Add(1)
 		if raw == 0 {
+			// the all-ones/zero ambiguity: the computed checksum is (one's-complement) zero and was
+			// sent as 0000 instead of ffff; it verifies arithmetically and any receiver accepts it
 			wc.zeroCkComputedZero.Add(1)
+			distinct(c, "write: computed UDP checksum 0 transmitted as 0000 — accepted (8a-5)")
+		} else {
+			rep("udp-checksum-omitted", fmt.Sprintf("udp-checksum=0000 (no checksum); frame %s", fw.HexShort(f)), fmt.Sprintf("udp-checksum=%04x", tx),
+				"the frame carries no UDP checksum although the RFC 768 checksum of this datagram is non-zero; a transmitted 0 is accepted only where the computed checksum is itself 0")
 		}
-		distinct(c, "write: UDP checksum transmitted as 0 (no checksum) — verifies, RFC 768")
 	default:
 		bad("udp-checksum", fmt.Sprintf("%04x", u.Checksum), fmt.Sprintf("%04x", tx))
 	}
@@ -435,8 +445,8 @@ func runWrite(c *fw.Ctx, ord *int64) {
 	checkWriteBadAddr(c, *ord)
 	*ord += 8
 	c.Scope("w3:non-*net.UDPAddr destination", "kinds", "nil, *net.IPAddr, *net.TCPAddr, *net.UnixAddr, foreign type")
-	c.Extra("write_udp_checksum_transmitted_zero(no-checksum; verifies per RFC 768, DESIGN 8a-5)", wc.zeroCk.Load())
-	c.Extra("write_udp_checksum_transmitted_zero_where_rfc768_computed_value_is_zero(sender should send ffff)", wc.zeroCkComputedZero.Load())
+	c.Extra("write_udp_checksum_transmitted_zero(all)", wc.zeroCk.Load())
+	c.Extra("write_udp_checksum_transmitted_zero_where_rfc768_computed_value_is_zero(accepted, 8a-5; sender should send ffff)", wc.zeroCkComputedZero.Load())
 	c.Extra("write_udp_checksum_computed_zero_transmitted_ffff", wc.computedZeroSentFFFF.Load())
 	c.Extra("write_return_value_n", map[string]int64{"n==len(payload)": wc.nIsPayload.Load(), "n==len(frame)": wc.nIsFrame.Load(), "other": wc.nOther.Load()})
 }
@@ -1074,7 +1084,7 @@ func runRead(c *fw.Ctx, ord *int64) {
 	{
 		type pc struct {
 			fl, ver, ihl, tl int
-			proto             byte
+			proto            byte
 		}
 		var pcs []pc
 		for _, fl := range []int{28, 46, 80} {
@@ -1225,6 +1235,11 @@ func runRead(c *fw.Ctx, ord *int64) {
 func Run(c *fw.Ctx) {
 	c.SetRule("every case is enumerated once (injective index decoding). Write side: non-trivial = a frame was emitted and every field and both checksums were verified by ipref. " +
 		"Read side: non-trivial = the sequence contains at least one frame the reference filter requires to be delivered (so payload and source are compared, not only skipping)")
+	// known-answer self-test of the reference (RFC 1071 worked example: header checksum b861)
+	ka := []byte{0x45, 0x00, 0x00, 0x73, 0x00, 0x00, 0x40, 0x00, 0x40, 0x11, 0xb8, 0x61, 0xc0, 0xa8, 0x00, 0x01, 0xc0, 0xa8, 0x00, 0xc7}
+	if !ipref.HeaderChecksumOK(ka) || ipref.HeaderChecksum(ka) != 0xb861 || ipref.Fold(ipref.Sum(0, []byte{0x00, 0x01, 0xf2, 0x03, 0xf4, 0xf5, 0xf6, 0xf7})) != 0xddf2 {
+		panic("c18: ipref known-answer self-test failed")
+	}
 	var ord int64
 	runRead(c, &ord) // read side first: simplest counterexamples (single frames) get the smallest order
 	runWrite(c, &ord)
@@ -1233,7 +1248,7 @@ func Run(c *fw.Ctx) {
 	c.Sample(map[string]any{"read": "frames [padded-to-46 own, IHL=7 other port, valid own] -> payload(10 bytes, no padding) from 192.168.x.1:67, then payload of the third; the second skipped"})
 	c.Assume("reference ipref written from RFC 791/768/1071 (stdlib only)",
 		"the scripted connection truncates a frame to the reader's buffer like a datagram socket",
-		"a transmitted UDP checksum of 0 verifies (RFC 768 'no checksum', DESIGN 8a-5); counted in coverage",
+		"a transmitted UDP checksum of 0 is accepted only where the RFC 768 computed checksum is itself 0 (DESIGN 8a-5); counted in coverage; otherwise the transmitted checksum must verify",
 		"read side: UDP length field, header checksum and UDP checksum of incoming frames are not required to be validated (UNSPECIFIED: delivered within the IP total length, or skipped)",
 		"read side: total length > frame length is not well-formed and must be skipped",
 		"caller buffer shorter than the payload: n=min(len(b),payload); frames longer than 60+8+len(b) UNSPECIFIED",
